@@ -575,13 +575,20 @@ def _prec_matrix(model):
 
     @functools.lru_cache(None)
     def derivable(name):
-        r = rules[name]
-        c = _cls(r)
-        if c:
-            return frozenset([c])
-        out = set()
-        for t in unit_targets(r.exp):
-            out |= derivable(t)
+        # node classes reachable through rules that only hand on what a sub-rule built (a depth-first walk with a visited set: a
+        # grammar may hand on in a cycle - `uplus = '+' @:factor`, factor -> unary -> uplus)
+        out, seen, work = set(), set(), [name]
+        while work:
+            n = work.pop()
+            if n in seen or n not in rules:
+                continue
+            seen.add(n)
+            r = rules[n]
+            c = _cls(r)
+            if c:
+                out.add(c)
+                continue
+            work.extend(unit_targets(r.exp))
         return frozenset(out)
 
     matrix = {}
